@@ -4,6 +4,7 @@ mod catalogue;
 mod c17;
 mod codec;
 mod compress;
+mod local;
 mod mono;
 mod statics;
 mod sxv;
@@ -34,6 +35,7 @@ fn main() {
         }
         "contend" => statics::contend(rest),
         "deep" => statics::deep(rest),
+        "samename" => local::run(rest),
         "monotypes" => {
             for t in mono::MONO_TYPES {
                 println!("{t}");
